@@ -45,6 +45,12 @@ RangeSeq(start, lim, step) == [i \in 1..RangeCount(start, lim, step) |-> NumV(st
 RangeMax == 1024      \* documented limit on the number of generated values
 
 SetOf(v) == {Canon(Elems(v)[i]) : i \in 1..Len(Elems(v))}
+RECURSIVE CatAll(_)
+CatAll(ss) == IF ss = <<>> THEN <<>> ELSE Head(ss) \o CatAll(Tail(ss))
+RECURSIVE ProdRows(_, _)
+ProdRows(a, i) == IF i > Len(a) THEN << <<>> >>
+                  ELSE LET rest == ProdRows(a, i + 1) es == Elems(a[i]) IN
+                       CatAll([k \in 1..Len(es) |-> [j \in 1..Len(rest) |-> <<es[k]>> \o rest[j]]])
 \* set results are compared as sets: the reference lists members in the order of the first argument(s)
 SetRes(t, members) == SeqV(t, members)
 
@@ -192,6 +198,17 @@ SRef(fn, a) ==
          IF n = 1 /\ IsSeqV(a[1]) THEN LET fs == FlatSeq(a[1]) IN OKV(SeqV(TTup([i \in 1..Len(fs) |-> fs[i].ty]), fs))
          ELSE IF n = 1 /\ a[1].st = "k" /\ a[1].ty.k \in {"map", "object", "number", "string", "bool"} THEN REJ
          ELSE UNDEF
+    \* setproduct of known lists / sets (no tuples, so no element unification): every combination once, the LAST argument varying fastest;
+    \* a list of tuples if every argument is a list, else a set of tuples
+    [] fn = "setproduct" ->
+         IF n >= 2 /\ (\A i \in 1..n : a[i].st = "k" /\ a[i].ty.k \in {"list", "set"} /\ ~HasDyn(a[i].ty)) THEN
+            LET ets == [i \in 1..n |-> a[i].ty.e]
+                rows == ProdRows(a, 1)
+                allLists == \A i \in 1..n : a[i].ty.k = "list"
+                rowV(r) == SeqV(TTup(ets), r)
+            IN IF allLists THEN OKV(SeqV(TList(TTup(ets)), [k \in 1..Len(rows) |-> rowV(rows[k])]))
+               ELSE OKV(SeqV(TSet(TTup(ets)), [k \in 1..Len(rows) |-> rowV(rows[k])]))
+         ELSE UNDEF
     [] fn = "sethaselement" ->
          IF n = 2 /\ a[1].st = "k" /\ a[1].ty.k = "set" /\ TEquals(a[2].ty, a[1].ty.e) /\ a[2].st = "k"
          THEN OKV(BoolV(\E i \in 1..Len(Elems(a[1])) : AbsEq(Elems(a[1])[i], a[2]))) ELSE UNDEF
@@ -199,7 +216,7 @@ SRef(fn, a) ==
 
 RefFns == {"length", "element", "index", "hasindex", "lookup", "contains", "keys", "values", "merge", "concat", "slice", "chunklist", "distinct",
            "compact", "reverselist", "sort", "zipmap", "range", "coalesce", "coalescelist", "setunion", "setintersection", "setsubtract",
-           "setsymmetricdifference", "sethaselement", "flatten"}
+           "setsymmetricdifference", "sethaselement", "flatten", "setproduct"}
 
 \* observed vs reference: canonical forms (sets as sets); the reference for set functions is already canonical
 MatchS(o, r) == IF r.st = "k" /\ Has(r.v, "z") THEN Canon(o) = r ELSE Canon(o) = Canon(r)
